@@ -107,6 +107,8 @@ static int note_obj(const void **tab, long id, const void *t)
 	if (!tab[id]) { tab[id] = t; return 0; }
 	return tab[id] != t;
 }
+struct probe_obj { probe_obj() : a(0), b(0) { } ~probe_obj() { } long a, b; char c[24]; };
+
 static void op_sweep(void)
 {
 	struct attr run = { 0, 0, 0, 0 }, cur;
@@ -216,6 +218,23 @@ int main(void)
 			printf(" ");
 			put_traits(&nt->traits);
 			printf(" | C id=%ld | I -\n", id);
+		}
+		else if ((!strcmp(op, "propid") || !strcmp(op, "propid0")) && drv_nw == 3) {
+			/* type_properties<T>::id(obtain): the C++ way to obtain a type id for a C++ type: registers the type's traits once
+			 * (ptr: a pointer type, obj: a class with constructor/destructor) and answers the same id from then on;
+			 * propid0 = id(false): asks without registering */
+			int which = !strcmp(drv_w[2], "ptr") ? 0 : !strcmp(drv_w[2], "obj") ? 1 : -1;
+			if (which < 0) { puts("bad-op"); continue; }
+			static long prop_id[2];
+			bool obtain = !op[6];
+			int id = which ? type_properties<probe_obj>::id(obtain) : type_properties<probe_obj *>::id(obtain);
+			if (id <= 0) { printf("R refused | C - | I err=%d\n", id); continue; }
+			const char *fresh = id == prop_id[which] ? "same" : ((id <= SWEEP_MAX && issued[id]) ? "no" : "yes");
+			if (id <= SWEEP_MAX) issued[id] = 1;
+			prop_id[which] = id;
+			printf("R ok fresh=%s range=%s ", fresh, (id >= _TypeValueAdd && id <= _TypeValueMax) ? "yes" : "no");
+			put_traits(type_traits::get(id));
+			printf(" | C id=%d | I -\n", id);
 		}
 		else if (!strcmp(op, "sweep") && drv_nw == 2) op_sweep();
 		else puts("bad-op");
